@@ -614,6 +614,20 @@ for _pid in ("C16", "C18", "C06", "C20"):
     SPECS[_pid]["parts"].append(_constructed(True))
 SPECS["C16"]["parts"].append(_constructed(False))
 
+ROUTER_SRC = ["app/router/" + f for f in ("router.go", "cache.go", "context.go", "server_tcp.go", "server_utils.go", "ecs.go", "router_middleware.go")]
+
+
+def _request_path(pause):
+    params = ({"quick": {"PAUSE": 1, "DEPTH": 3, "FAULTS": 0, "SHARDDEPTH": 4, "PAUSEWINDOWS": 5}, "thorough": {"PAUSE": 1, "PAUSEHITS": 2, "DEPTH": 5, "FAULTS": 2, "SHARDDEPTH": 4}} if pause else
+              {"quick": {"DEPTH": 4, "FAULTS": 1, "SHARDDEPTH": 4}, "thorough": {"DEPTH": 7, "FAULTS": 2, "SHARDDEPTH": 4}})
+    return router_part("request-path-preempt" if pause else "request-path", "TestVerifRP", ["zz_verif_rp_test.go", "zz_verif_c19_test.go", "zz_verif_c03_test.go", "zz_verif_c07_test.go", "zz_verif_c08_test.go"],
+                       engines=E4ENGINES, generate=instrument(ROUTER_SRC), params=params, budget={"quick": 60, "thorough": 600})
+
+
+for _pid in ("C04", "C12", "C20"):
+    SPECS[_pid]["parts"].append(_request_path(True))
+SPECS["C04"]["parts"].append(_request_path(False))
+
 # --------------------------------------------------------------------------------------------
 # Properties not (yet) claimed. Kept current: every property without a SPECS entry must be here.
 NOT_APPLICABLE = {
